@@ -108,6 +108,8 @@ def parse_type(s: str) -> T:
             return SET(args[0])
         if name == 'Deque':
             return T('set', (args[0],), 'deque')     # duplicate-free FIFO: a set whose pop raises IndexError
+        if name == 'VSet':
+            return T('set', (args[0],), 'byvalue')   # OrderedSet of task objects: membership and add compare by VALUE (== / hash)
         if name == 'UList':
             return T('set', (args[0],), 'ulist')     # a list known to be duplicate-free (every append is proved to add a new element)
         if name == 'List':
